@@ -124,6 +124,44 @@ def wire(loop, line_bytes, uploads, extra=b""):
 
 
 NONE_SEEN = {"host": "none", "port": -1, "path": "none", "query": "none"}
+_CLIENT = {}
+
+
+def client_wire(loop, url):
+    """The request line the real GeminiClient puts on the wire for `url` (the caller's spelling, not a pre-normalised
+    one): _get_single with create_connection answered by a fake transport."""
+    import ssl as _ssl
+    from nauyaca.client.session import GeminiClient
+    if "c" not in _CLIENT:
+        ctx = _ssl.SSLContext(_ssl.PROTOCOL_TLS_CLIENT)
+        ctx.check_hostname = False
+        ctx.verify_mode = _ssl.CERT_NONE
+        _CLIENT["c"] = GeminiClient(timeout=5, trust_on_first_use=False, ssl_context=ctx, verify_ssl=False)
+    box = {}
+
+    async def create_connection(factory, host=None, port=None, ssl=None, server_hostname=None, **kw):
+        proto = factory()
+        box["tr"] = FakeTransport(loop, proto, peername=("203.0.113.9", port), auto_lost=True)
+        box["to"] = (host, port)
+        proto.connection_made(box["tr"])
+        return box["tr"], proto
+    old = getattr(loop, "create_connection")
+    loop.create_connection = create_connection
+    try:
+        task = loop.create_task(_CLIENT["c"]._get_single(url))
+        loop.run_idle()
+        sent = bytes(box["tr"].wire) if "tr" in box else b""
+        if "tr" in box and not box["tr"].lost:
+            loop.call(box["tr"].peer_reset, ConnectionResetError("done"))
+        loop.run_idle()
+        if not task.done():
+            task.cancel()
+            loop.run_idle()
+        elif not task.cancelled():
+            task.exception()
+        return sent, box.get("to")
+    finally:
+        loop.create_connection = old
 
 
 def one_case(loop, u, uploads, rnd):
@@ -161,17 +199,19 @@ def one_case(loop, u, uploads, rnd):
                 lib["idem"] = True
             if lib["normAccepts"]:
                 # what the client puts on the wire and what the server then parses
-                fut = loop.create_future()
-                cp = GeminiClientProtocol(n1, fut)
-                ctr = FakeTransport(loop, cp, auto_lost=True)
-                cp.connection_made(ctr)
-                sent = bytes(ctr.wire)
-                spy2, st2, tr2 = wire(loop, sent[:-2] if sent.endswith(b"\r\n") else sent, False)
+                # the real client is given the caller's spelling; whatever it sends is fed to the real server as it is
+                sent, to = client_wire(loop, line)
+                spy2 = Spy()
+                proto2 = GeminiServerProtocol(spy2.handler, spy2, None)
+                tr2 = FakeTransport(loop, proto2, auto_lost=True)
+                loop.call(proto2.connection_made, tr2)
+                loop.call(tr2.feed, sent)
+                loop.run_idle()
                 if spy2.requests:
                     r2 = spy2.requests[0]
                     lib["wire"] = back_to_kinds(u, parts, r2.hostname, r2.port, r2.path, r2.query)
-                if not fut.done():
-                    fut.cancel()
+                    if len(spy2.requests) > 1 or not sent.endswith(b"\r\n") or sent.count(b"\r\n") != 1:
+                        lib["wire"]["host"] = "other"
     return {"u": u, "uploads": uploads, "called": called, "status": st, "seen": seen, "lib": lib,
             "_line": wire_line if len(wire_line) < 200 else wire_line[:120] + "...(%d bytes)" % len(wire_line.encode())}
 
